@@ -461,6 +461,45 @@ def r6(k: Kit) -> None:
                       'empty result although the sender has not signalled '
                       'EOF', k.loc(fi, nd))
     rep.floor('C07.R6', 'partial-consumption stores', sites, 2)
+    # ... and the channel does not hand the session an empty chunk: the
+    # incremental decoder returns '' for a packet that holds only part of a
+    # multi-byte character
+    dd = k.func('channel.SSHChannel._deliver_data')
+    g = k.cfg(dd)
+    hands = [(nd, c) for nd, c in k.calls_named(dd, 'data_received')
+             if (dotted(c.func.value) or '').endswith('_session')]
+    rep.floor('C07.R6', 'session hand-over sites', len(hands), 1)
+    # an empty result (the EOF indication) is returned only when nothing is
+    # buffered: EOF never hides packets that arrived before it
+    for fi in k.idx.iter_funcs(['stream']):
+        if 'recv_buf' not in {nm for x in ast.walk(fi.node)
+                              if isinstance(x, ast.Name) for nm in [x.id]}:
+            continue
+        g2 = k.cfg(fi)
+        for r in g2.nodes:
+            if r.kind == 'return' and isinstance(r.ast.value, ast.Constant) \
+                    and r.ast.value.value in (b'', ''):
+                w = g2.guarded_by(r.id, lambda x: False if x.kind == 'atom'
+                                  and dotted(x.ast) == 'recv_buf' else None)
+                rep.check(w is None, 'C07.R6',
+                          key(fi, 'EOF result only with an empty buffer'),
+                          'the empty (EOF) result is returned only past a '
+                          'test that nothing is buffered',
+                          f'{fi.qual} can return the empty EOF result while '
+                          'chunks are still buffered (EOF arrived after '
+                          'them): data sent before the EOF is dropped',
+                          k.loc(fi, r), g2.describe_path(w) if w else None)
+    for nd, c in hands:
+        var = dotted(c.args[0]) if c.args else None
+        w = g.guarded_by(nd.id, atom_truthy_of(var)) if var else [0]
+        rep.check(w is None, 'C07.R6', key(dd, 'no empty chunk delivered'),
+                  f'`{var}` is delivered only when non-empty',
+                  f'`{var}` is delivered to the session even when the '
+                  'decoder produced nothing (a packet carrying only part of '
+                  'a multi-byte character): the stream stores an empty '
+                  'chunk and the next read(n) returns an empty result in '
+                  'mid-stream, which readers take for end of file',
+                  k.loc(dd, nd))
 
 
 def r7(k: Kit) -> None:
